@@ -1679,3 +1679,88 @@ def m_is_alphabetic_unicode(I, c, args, fr):
     if c.name == 'is_numeric':
         return num
     return b_or(latin1_alpha(x), num)
+
+# ---------------------------------------------------------------------------- integer helpers / range bounds (C15)
+def _int_bits(c):
+    for nm, ta in c.segs:
+        if nm == '<impl>':
+            t = norm_self_name(ta[0])
+            return {'u8': 8, 'u16': 16, 'u32': 32, 'u64': 64, 'usize': 64, 'u128': 128}.get(t)
+    return None
+
+def norm_self_name(t):
+    from interp import norm_self
+    return norm_self(t)
+
+@model('usize::saturating_add', 'u64::saturating_add', 'u32::saturating_add', 'u16::saturating_add', 'u8::saturating_add')
+def m_saturating_add(I, c, args, fr):
+    bits = _int_bits(c) or 64
+    a, b = args
+    mx = (1 << bits) - 1
+    if not is_sym(a) and not is_sym(b):
+        return min(a + b, mx)
+    s = bv(a, bits) + bv(b, bits)
+    return z3.If(z3.ULT(s, bv(a, bits)), z3.BitVecVal(mx, bits), s)
+
+@model('usize::saturating_sub', 'u64::saturating_sub', 'u32::saturating_sub', 'u16::saturating_sub', 'u8::saturating_sub')
+def m_saturating_sub(I, c, args, fr):
+    bits = _int_bits(c) or 64
+    a, b = args
+    if not is_sym(a) and not is_sym(b):
+        return max(a - b, 0)
+    return z3.If(z3.ULT(bv(a, bits), bv(b, bits)), z3.BitVecVal(0, bits), bv(a, bits) - bv(b, bits))
+
+@model('usize::wrapping_add', 'u64::wrapping_add', 'u32::wrapping_add', 'u8::wrapping_add')
+def m_wrapping_add(I, c, args, fr):
+    bits = _int_bits(c) or 64
+    a, b = args
+    if not is_sym(a) and not is_sym(b):
+        return (a + b) & ((1 << bits) - 1)
+    return bv(a, bits) + bv(b, bits)
+
+@model('usize::checked_add', 'u64::checked_add', 'u32::checked_add', 'u8::checked_add')
+def m_checked_add(I, c, args, fr):
+    bits = _int_bits(c) or 64
+    a, b = args
+    if not is_sym(a) and not is_sym(b):
+        return some(a + b) if a + b < (1 << bits) else none()
+    s = bv(a, bits) + bv(b, bits)
+    if I.ctx.decide(z3.ULT(s, bv(a, bits))):
+        return none()
+    return some(s)
+
+def _bound_ref(kind, holder, idx):
+    """Bound<&T> pointing at field idx of holder"""
+    vi = {'Included': 0, 'Excluded': 1, 'Unbounded': 2}[kind]
+    if kind == 'Unbounded':
+        return Adt('Bound', 'Unbounded', 2, [])
+    return Adt('Bound', kind, vi, [Ref(ListLoc(holder.fields if hasattr(holder, 'fields') else holder.items, idx))])
+
+@model('RangeBounds::start_bound', 'RangeBounds::end_bound')
+def m_range_bound(I, c, args, fr):
+    r = deref(args[0])
+    start = c.name == 'start_bound'
+    if isinstance(r, Tup):
+        b = r.items[0 if start else 1]
+        if b.variant == 'Unbounded':
+            return Adt('Bound', 'Unbounded', 2, [])
+        return Adt('Bound', b.variant, b.vidx, [Ref(ListLoc(b.fields, 0))])
+    t = r.ty
+    if t == 'RangeFull':
+        return _bound_ref('Unbounded', r, 0)
+    if t == 'Range':
+        return _bound_ref('Included', r, 0) if start else _bound_ref('Excluded', r, 1)
+    if t == 'RangeInclusive':
+        # (exhausted ranges report an excluded end; RangeInclusive::new never builds one)
+        return _bound_ref('Included', r, 0) if start else _bound_ref('Included', r, 1)
+    if t == 'RangeFrom':
+        return _bound_ref('Included', r, 0) if start else _bound_ref('Unbounded', r, 0)
+    if t == 'RangeTo':
+        return _bound_ref('Unbounded', r, 0) if start else _bound_ref('Excluded', r, 0)
+    if t == 'RangeToInclusive':
+        return _bound_ref('Unbounded', r, 0) if start else _bound_ref('Included', r, 0)
+    raise Unsupported('RangeBounds for ' + t)
+
+@model('RangeInclusive::new')
+def m_range_inclusive_new(I, c, args, fr):
+    return Adt('RangeInclusive', None, 0, [args[0], args[1], False], ['start', 'end', 'exhausted'])
